@@ -46,6 +46,8 @@ def enc_pv(v):
         return ['s', v]
     if v is None:
         return ['n']
+    if isinstance(v, (bytes, complex)) or v is Ellipsis:
+        return ['o', type(v).__name__, repr(v)]
     return 'O'
 
 
@@ -170,10 +172,6 @@ def oracle(pattern_root, student_root, m):
                     continue
                 for x, y in zip(va, vb):
                     if x[0] in ('AST',):
-                        continue
-                    if x[0] in ('bytes', 'complex', 'ellipsis'):
-                        if x != y and not (x[1] != x[1]):
-                            problems.append(('opaque-content', '%s.%s: %r vs %r' % (t, fa, x[1], y[1])))
                         continue
                     if x != y:
                         problems.append(('content', '%s.%s: %r vs %r' % (t, fa, x[1], y[1])))
@@ -390,6 +388,20 @@ def main():
                         idents = sorted({v.id for v in values})
                         if len(idents) != 1:
                             continue
+                        # the placeholder written where ANOTHER identifier stands: no returned map may bind it to that one (too)
+                        tree = ast.parse(src, mode='eval')
+                        others = sorted({n.id for n in ast.walk(tree) if isinstance(n, ast.Name) and n.id != idents[0]
+                                         and isinstance(n.ctx, ast.Load)})
+                        if others:
+                            for n in ast.walk(tree):
+                                if isinstance(n, ast.Name) and n.id == others[0]:
+                                    n.id = nph
+                            inner = ast.unparse(tree) + '\n'
+                            try:
+                                got = [bindings(r)['names'].get(nph) for r in node.find_matches(inner)]
+                            except Exception as e:
+                                got = 'crash: ' + type(e).__name__ + ': ' + str(e)[:100]
+                            per.append({'match': mi, 'inner': inner, 'placeholder': nph, 'identifier': idents[0], 'got': got, 'conflict': others[0]})
                         tree = ast.parse(src, mode='eval')
                         hits = [n for n in ast.walk(tree) if isinstance(n, ast.Name) and n.id == idents[0]]
                         if not hits or isinstance(tree.body, ast.Name):
